@@ -482,7 +482,8 @@ def hexdump (data):
   Converts raw data to a hex dump
   """
   if isinstance(data, (str,bytes)):
-    data = [ord(c) for c in data]
+    # Iterating bytes yields ints on Python 3
+    data = [c if isinstance(c, int) else ord(c) for c in data]
   o = ""
   def chunks (data, length):
     return (data[i:i+length] for i in range(0, len(data), length))
